@@ -79,6 +79,9 @@ def check(ctx):
     ctx.rule("C03-J", "an image stands for its alt text and nothing else: the `img` arm of the DOM walk looks only at the `alt` and "
              "`src` attributes, and the Img node's text is an attribute value")
     ctx.guard("C03-J", rule_j)
+    ctx.rule("C03-K", "the DOM walk drops a subtree (TreeMapResult::Nothing) only at the reviewed kinds of sites: non-element nodes, "
+             "the ignored element names, display:none, an image without alt or src, the pass-through of an inner Nothing")
+    ctx.guard("C03-K", rule_k)
     for rid, fn in (("C03-A", rule_a), ("C03-B", rule_b), ("C03-C", rule_c), ("C03-D", rule_d), ("C03-E", rule_e),
                     ("C03-G", rule_g)):
         ctx.guard(rid, fn)
@@ -462,6 +465,49 @@ def rule_j(ctx):
     for x, st in aggs:
         at = pdn.atoms(st["rv"]["ops"][1]) if len(st["rv"]["ops"]) > 1 else set()
         ctx.check(any(a[0] == "field" and a[2] == "value" for a in at), "C03-J", "img-arm:text-is-an-attribute-value", st["span"], pdn.id, "")
+
+
+def rule_k(ctx):
+    """Where process_dom_node yields Nothing (a subtree that contributes nothing): the non-element arms of the node-kind
+    dispatch, the element-name test of the ignored elements (their set is C03-B), an image without alt or src, the
+    pass-through of an inner Nothing, and — with css — the display:none edge (C18-A).  Any other Nothing is a new way of
+    dropping a subtree."""
+    F = ctx.facts
+    pdn = F.one("process_dom_node")
+    idom = pdn.idom()
+    n = 0
+    for x in sorted(pdn.reachable()):
+        for st in pdn.stmts(x):
+            rv = st.get("rv") or {}
+            if not (rv.get("variant") == "Nothing" and ends(rv.get("adt"), "TreeMapResult")):
+                continue
+            n += 1
+            a = idom[x] if not isinstance(idom, dict) else idom.get(x)
+            hops = 0
+            while a is not None and pdn.term(a)["k"] != "switch" and hops < 400:
+                na = idom[a] if not isinstance(idom, dict) else idom.get(a)
+                a = None if na == a else na
+                hops += 1
+            kind = None
+            if a is not None:
+                neg, src = pdn.switch_source(a)
+                ty = str(src[1].get("ty", "")) if src and src[0] == "discr" else ""
+                if src and src[0] == "discr" and ty.endswith("NodeData"):
+                    kind = "non-element node"
+                elif src and src[0] == "discr" and "css::Display" in ty:
+                    kind = "display:none (C18-A)"
+                elif src and src[0] == "discr" and ty.startswith("TreeMapResult"):
+                    kind = "pass-through of an inner Nothing"
+                elif src and src[0] == "discr" and ty.startswith("std::option::Option<&str>"):
+                    kind = "image without alt or src"
+                elif src and src[0] == "bin" and src[1]["bin"] == "Eq" and any(
+                        x2[0] == "field" and x2[2] == "local" for side in ("a", "b") for x2 in pdn.atoms(src[1][side], through_calls=False)):
+                    kind = "ignored element name (C03-B)"
+            ctx.check(kind is not None, "C03-K", "process_dom_node:Nothing@%s" % (kind or "bb-under-%s" % (pdn.term(a)["span"] if a is not None else "?")),
+                      st["span"], pdn.id,
+                      "process_dom_node yields Nothing here under a test that is none of the reviewed ones (node kind, ignored element "
+                      "name, display:none, image without alt/src, inner Nothing): the subtree is dropped with its text")
+    ctx.floor("C03-K", "Nothing results in process_dom_node", n, 5)
 
 
 PAYLOAD_SINKS = {
